@@ -56,12 +56,13 @@ type Case struct {
 const lockName = "n"
 const prefix = "rueidislock"
 
-var slack = 2500 * time.Millisecond
+// every wait is bounded by this; it is only ever used up when something is wrong
+var slack = 12 * time.Second
 
 // ---- generators ----
 
 func genCase(r *gen.Rand, i int) any {
-	c := Case{M: gen.Pick(r, []int{1, 2, 2, 2, 3}), Lockers: r.Range(2, 4), Validity: 2000, Interval: gen.Pick(r, []int{40, 70, 120}), TryNext: 400}
+	c := Case{M: gen.Pick(r, []int{1, 2, 2, 2, 3}), Lockers: r.Range(2, 4), Validity: 30000, Interval: gen.Pick(r, []int{40, 70, 120}), TryNext: 8000}
 	c.SetPX = r.Chance(1, 4)
 	switch k := r.Intn(20); {
 	case k < 5:
@@ -72,7 +73,7 @@ func genCase(r *gen.Rand, i int) any {
 		c.Kind = "loss"
 	case k < 15:
 		c.Kind = "fault"
-	case k < 17:
+	case k < 16:
 		c.Kind = "waiters"
 	case k < 18:
 		c.Kind = "samegate"
@@ -139,7 +140,11 @@ func genCase(r *gen.Rand, i int) any {
 	case "fault": // single script round trips fail
 		switch r.Intn(3) {
 		case 0: // an acquisition answers with an error / too late: the next key is tried, the leftover is deleted
-			add(Step{Op: "fault", L: 0, Key: r.Intn(K), Fault: gen.Pick(r, []string{"acq-err", "acq-slow"})})
+			ft := gen.Pick(r, []string{"acq-err", "acq-slow"})
+			if ft == "acq-slow" {
+				c.TryNext = 300 // the caller gives up on that round trip; the reply is held back much longer
+			}
+			add(Step{Op: "fault", L: 0, Key: r.Intn(K), Fault: ft})
 			add(Step{Op: "try", L: 0})
 			nap()
 			add(Step{Op: "try", L: 1})
@@ -203,6 +208,7 @@ type attempt struct {
 	finished bool // its return has been recorded
 	ctx      context.Context
 	lastLoss time.Time
+	unlockd  bool     // its cancel function has been called
 	mon      []string // per key, what the attempt's monitor is doing as far as the recorded steps tell: "" | run | del | exit
 	last     []*rstep // per key: the last acquire / extend step
 }
@@ -365,7 +371,7 @@ func (w *world) fault(c *fakeredis.Conn, cseq int, argv []string) fakeredis.Acti
 			e := fakeredis.Error("ERR injected failure")
 			return fakeredis.Action{Override: &e}
 		case "acq-slow": // executed, answered after the caller gave up
-			return fakeredis.Action{DelayReply: time.Duration(w.c.TryNext+150) * time.Millisecond}
+			return fakeredis.Action{DelayReply: time.Duration(w.c.TryNext)*time.Millisecond + 900*time.Millisecond}
 		}
 	}
 	return fakeredis.Action{}
@@ -578,7 +584,26 @@ func (w *world) onExec(e fakeredis.Entry) {
 //   - the last acquire / extend of that key was answered "not the owner" by the server, yet the monitor
 //     deletes: the caller had abandoned that round trip (context done) and never saw the answer.
 func (w *world) beforeDelkey(a *attempt, ki int) {
+	left := 0
+	for _, m := range a.mon {
+		if m == "del" || m == "exit" {
+			left++
+		}
+	}
+	cancelled := a.unlockd || left >= w.c.M // what the recorded steps say about the lock context
 	switch a.mon[ki] {
+	case "run":
+		// the monitor still ran and the context is not done as far as the steps tell: the caller must have
+		// given up on the last round trip of this key (its own timeout) although the server answered
+		if st := a.last[ki]; st != nil && st.replied && !cancelled {
+			st.replied = false
+			if st.kind == "acq" {
+				st.robs = "(RAcq EOther)"
+			} else {
+				st.robs = "(RExt EOther)"
+			}
+			a.mon[ki] = "del"
+		}
 	case "":
 		for j := 0; j <= ki; j++ {
 			if a.mon[j] == "" {
@@ -701,6 +726,7 @@ func (w *world) unlock(cl *call) {
 	a := cl.att
 	w.mu.Lock()
 	w.emit(obs.App("LCancel", obs.Nat(a.id)), "RNone", obs.None)
+	a.unlockd = true
 	w.mu.Unlock()
 	fin := make(chan struct{})
 	go func() { cl.cancel(); close(fin) }()
@@ -782,7 +808,7 @@ func run(ci any) (res obs.Result) {
 				continue
 			}
 			cl := w.start(st.L, st.Op)
-			if !waitDone(cl, 3*slack) {
+			if !waitDone(cl, 2*slack) {
 				w.mu.Lock()
 				w.fail("call-hangs", st.Op+" did not return")
 				w.mu.Unlock()
@@ -798,7 +824,7 @@ func run(ci any) (res obs.Result) {
 		case "join":
 			wins := 0
 			for _, cl := range racing {
-				waitDone(cl, 3*slack)
+				waitDone(cl, 2*slack)
 				if cl.att != nil {
 					wins++
 				} else {
@@ -884,7 +910,7 @@ func run(ci any) (res obs.Result) {
 		}
 	}
 	for _, cl := range rest {
-		waitDone(cl, 3*slack)
+		waitDone(cl, 2*slack)
 		if cl.att != nil && cl.cancel != nil {
 			w.unlock(cl)
 		}
